@@ -325,6 +325,9 @@ SCHEMA = {
          ["type_covered", "algorithm", "labels", "original_ttl", "expiration", "inception", "key_tag", "signer", "signature"]),
     108: ("eui6", ["eui"]), 109: ("eui8", ["eui"]),
     CH_A: ("n o16", ["domain", "address"]),
+    20: ("q qopt", ["address", "subaddress"]),
+    55: ("d8 hexstr b64tok names", ["algorithm", "hit", "key", "servers"]),      # text order; constructor: hit, algorithm, ...
+    249: ("nnr d32 d32 d16 d16 b64tok b64opt", ["algorithm", "inception", "expiration", "mode", "error", "key", "other"]),
     104: ("d16 fmthex", ["preference", "nodeid"]), 106: ("d16 fmthex", ["preference", "locator64"]),
     43: ("d16 alg d8 hex", ["key_tag", "algorithm", "digest_type", "digest"]),
     59: ("d16 alg d8 hex", ["key_tag", "algorithm", "digest_type", "digest"]),
@@ -365,6 +368,16 @@ def gen_field(rng, kind):
         return rng.choice([0, 1, 2, 23, 46, 47, 48, 59, 60, 62, 255, 256, 257, 262, 263, 32768, 32769, 65535, rng.randrange(65536)])
     if kind == "ectype":
         return rng.choice([0, 1, 2, 3, 4, 5, 6, 7, 8, 9, 252, 253, 254, 255, 65535, rng.randrange(65536)])
+    if kind == "qopt":
+        return b"" if rng.random() < 0.4 else gen_field(rng, "q1")
+    if kind in ("hexstr", "b64tok"):
+        return (gen_bytes(rng, 60) or b"\0")[:255]
+    if kind == "b64opt":
+        return b"" if rng.random() < 0.5 else (gen_bytes(rng, 40) or b"\xff")
+    if kind == "nnr":
+        return gen_field(rng, "n")
+    if kind == "names":
+        return [gen_field(rng, "n") for _ in range(rng.choice([0, 0, 1, 2, 3]))]
     if kind == "fmthex":
         t = ":".join("%04x" % rng.choice([0, 1, 0x14, 0xDB8, 0xABCD, 0xFFFF, rng.randrange(65536)]) for _ in range(4))
         return (t.upper() if rng.random() < 0.3 else t).encode()
@@ -432,10 +445,14 @@ def mkname(ls):
 
 def build_rdata(rdtype, vals):
     kinds = SCHEMA[rdtype][0].split()
-    args = [mkname(v) if k == "n" else [(w, bytes(b)) for w, b in v] if k == "bm" else bytes(v).decode("latin-1") if k == "fmthex" else v
+    args = [mkname(v) if k in ("n", "nnr") else [mkname(x) for x in v] if k == "names" else [(w, bytes(b)) for w, b in v] if k == "bm"
+            else bytes(v).decode("latin-1") if k == "fmthex" else v
             for k, v in zip(kinds, vals)]
     rdclass, rdt = class_type(rdtype)
     cls = dns.rdata.get_rdata_class(rdclass, rdt)
+    if rdt == 55:
+        # HIP: the constructor takes (hit, algorithm, key, servers); the text starts with the algorithm
+        args = [args[1], args[0], args[2], args[3]]
     return cls(rdclass, rdt, *args)
 
 
@@ -683,7 +700,7 @@ def in_model(kind, case):
         text = dec(case[2])
         # names go through the IDNA codec when the text is not ASCII; the generic-syntax branch of a
         # schema type needs the wire codec (C02): neither is part of this model
-        if any(ord(c) > 127 for c in text) and (set(SCHEMA[case[1]][0].split()) & {"n", "bm", "etype", "escheme", "ectype", "ealg", "ealgnum", "sigtime", "alg"}):
+        if any(ord(c) > 127 for c in text) and (set(SCHEMA[case[1]][0].split()) & {"n", "nnr", "names", "bm", "etype", "escheme", "ectype", "ealg", "ealgnum", "sigtime", "alg"}):
             return False
         if "a6" in SCHEMA[case[1]][0] and ("\\" in text or any(ord(c) > 127 for c in text)):
             # escapes can put a line break into the address text (regular-expression corner case)
@@ -831,6 +848,12 @@ def impl(case):
                     continue
                 if k == "fmthex":
                     out.append(enc(v))
+                    continue
+                if k == "names":
+                    out.append([nl.labels_of(x) for x in v])
+                    continue
+                if k == "nnr":
+                    out.append(nl.labels_of(v))
                     continue
                 if k == "a4":
                     v = dns.ipv4.inet_aton(v)
